@@ -135,7 +135,7 @@ func ProtoMonitor(sc *Scenario, w *World, x *Exec) []Violation {
 						if st.halfClose > 1 {
 							bad("half-close-at-most-once", "c2s:second-half-close", fmt.Sprintf("%s: id %d", ms.Name, m.StreamId))
 						}
-						if st.reqLeft > 0 {
+						if st.reqLeft > 0 && !callerSendFailed(w, st.script, f.Step) {
 							bad("message-contiguous", "c2s:half-close-inside-message", fmt.Sprintf("%s: id %d with %d bytes outstanding", ms.Name, m.StreamId, st.reqLeft))
 						}
 					case *tunnelpb.ClientToServer_Cancel:
@@ -514,4 +514,15 @@ func firstKMessageBytes(frames []*Frame, id int64, dir, k int) int {
 		}
 	}
 	return total
+}
+
+// callerSendFailed reports whether the calling application of this stream had a SendMsg
+// fail before step (the message it was sending is then legitimately left incomplete).
+func callerSendFailed(w *World, script string, step int) bool {
+	for _, e := range w.Events {
+		if e.Actor == "caller:"+script && e.Op == "send" && !e.OK() && e.Step <= step {
+			return true
+		}
+	}
+	return false
 }
